@@ -924,35 +924,38 @@ def classify(c, io):
 def trivial(c, io):
     return False
 
-LEVEL_TEXT = ('Unbounded theorems (Coq) about the statement-by-statement translation of timeutils.py regenerated on every run: '
-              'normalize_time is the identity on naive datetimes and maps an aware one to the naive reading of wall - utcoffset (OverflowError '
-              'exactly when that is outside datetime.min..max); the proleptic Gregorian calendar and time-of-day split used for the fields are '
-              'bijections for every day number >= 0 / every valid date (arithmetic proof, no bound); unmarshall_time(marshall_now(d)) = d for naive '
-              'd and gives the same wall reading with offset 0 for UTC d, a second >= 59 is read as 59, the seven fields carry the microseconds; '
-              'under a scalar override utcnow returns it, utcnow_ts is (wall div 10^6) - 62135596800 resp. that plus microsecond/10^6 exactly, any '
-              'sequence of advance_time_delta/seconds moves the instant by the exact sum (induction), OverflowError moves nothing; is_older_than / '
-              'is_newer_than / is_soon hold iff now - t > s, t - now > s, t <= now + w for naive, aware and parser-resolved string t. '
-              'iso8601 and isoformat are modelled for the isoformat() shape and proved inverse for whole-minute offsets. One clause is refuted '
-              'with a witness replayed on the implementation: isoformat() of sub-minute offsets (ValueError from parse_isotime).')
-LEVEL_NOTE = ('Trusted: Coq kernel; tools/gen/gen_C12.py (typed AST translation; four idiomatic functions recognised as whole-AST templates); CPython datetime '
-              'arithmetic as modelled in Model/C12_Prim.v (tied by the correspondence: fields, constructor validation, overflow, naive/aware TypeError); '
-              'timedelta(seconds=float) rounding, float arithmetic of utcnow_ts/total_seconds, utcoffset()/tzname() of tzinfo objects, zoneinfo and iso8601 '
-              'outside the modelled shape are computed by CPython in the harness and passed to the model as integers (contracts appear as premises). '
+LEVEL_TEXT = ('Unbounded theorems (Coq) about the statement-by-statement translation of timeutils.py (and the TimeFixture wrappers of fixture.py) '
+              'regenerated on every run: normalize_time is the identity on naive datetimes and maps an aware one to the naive reading of wall - utcoffset '
+              '(OverflowError exactly when that is outside datetime.min..max); the proleptic Gregorian calendar and time-of-day split used for the fields are '
+              'bijections for every day number >= 0 / every valid date (arithmetic proof, no bound); unmarshall_time(marshall_now(d)) = d for naive d and gives '
+              'the same wall reading with offset 0 for UTC d, a second >= 59 is read as 59, the seven fields carry the microseconds; under a scalar override '
+              'utcnow returns it, utcnow_ts is (wall div 10^6) - 62135596800 resp. that plus microsecond/10^6 exactly, any interleaving of advance_time_delta/'
+              'seconds through the module or the fixture moves the instant by the exact sum (induction), OverflowError moves nothing; a list override is popped '
+              'in order and never moved by advance; an aware override makes the comparisons raise TypeError; is_older_than / is_newer_than / is_soon hold iff '
+              'now - t > s, t - now > s, t <= now + w for naive, aware and parser-resolved string t, where s is the Python int or binary64 float argument and '
+              'timedelta(seconds=s) is modelled on an axiom-free binary64 (exact for ints and integral floats; integer part + round-half-even of the binary64 '
+              'product fraction*1e6 otherwise; the nearest/ties-to-even property of that rounding is proved). iso8601.parse_date is modelled by its own regular '
+              'expression (regenerated, run by the verified-by-correspondence regex engine) and by a direct reader of isoformat() text on which parse o isoformat '
+              '= id is proved for whole-minute offsets. One clause is refuted with a witness replayed on the implementation: isoformat() of sub-minute offsets.')
+LEVEL_NOTE = ('Trusted: Coq kernel; tools/gen/gen_C12.py (typed AST translation; parse_isotime, utcnow, set_time_override, advance_time_delta and the TimeFixture '
+              'methods recognised as whole-AST templates; failclosed guards); CPython datetime arithmetic as modelled in Model/C12_Prim.v and binary64 as in '
+              'Base/PyFloat.v (both tied bit-exactly by the correspondence: fields, constructor validation, overflow, naive/aware TypeError, timedelta(seconds=float)); '
+              'utcoffset()/tzname() of tzinfo objects and zoneinfo are computed by CPython in the harness and passed to the model (contracts appear as premises). '
+              'Not proved: a bound on the binary64 multiplication error inside timedelta(seconds=float) (the model is CPython\'s algorithm, not its real-number meaning). '
               'All Print Assumptions: Closed under the global context.')
-TRUSTED = ['datetime.timedelta(seconds=x) / timedelta(0, x): the conversion of a Python number to microseconds (round-half-even) is done by CPython in the harness; second counts reach the model in microseconds',
+TRUSTED = ['timedelta(seconds=x) / timedelta(0, x) is modelled in Coq (td_of_seconds on Base/PyFloat.v) and compared bit-exactly with CPython on every second count and on the td cases',
            'tzinfo.utcoffset(dt) and tzinfo.tzname(None) (fixed offsets, zoneinfo zones incl. fold) are evaluated by CPython and passed as integers/strings',
            'zoneinfo.ZoneInfo(key) is an oracle of the world (lib_zone); theorem contract: the key UTC exists with offset 0 — tested on every marshalling case',
-           'iso8601.parse_date is modelled in Coq (Model/C12_Iso.v) for isoformat()-shaped text and is an oracle of the world (lib_parse) elsewhere',
+           'iso8601.parse_date is modelled in Coq (Model/C12_Iso.v: the library regex regenerated from the installed iso8601 minus its look-ahead, which the model re-imposes; Decimal fraction arithmetic re-implemented) for every string',
            'float results (utcnow_ts(True), delta_seconds) are returned by the model as exact expressions and evaluated with CPython float arithmetic by the harness',
            'the OS clock is replaced in the harness by a fake datetime.now (module attribute of timeutils patched during a case); real-clock behaviour is bracketed by extra checks']
-ASSUMPTIONS = ['second counts are compared at microsecond resolution: s means timedelta(seconds=s) (CPython rounds a float half-even to 1 us), so a sub-microsecond fraction is not distinguished',
-               'the overridden clock is naive UTC (an aware override makes the comparisons raise TypeError: modelled, not part of the theorems); an override in a zoneinfo zone with a varying offset is not modelled',
-               'a list override is popped per call and is NOT moved by advance_time_* (modelled, correspondence only; the property speaks of a single instant)',
-               'parse_strtime / PERFECT_TIME_FORMAT (strptime) is library behaviour and not part of the property text: not modelled',
-               'timedelta range (|days| <= 999999999) is not modelled: generated second counts stay inside it or the case is implementation-only']
-RULE = ('cases = world (override slot, fake OS clock) + command list; kinds: norm (naive/aware x fixed offsets -23:59..+23:59, sub-minute offsets, %d zoneinfo zones incl. fold), '
+ASSUMPTIONS = ['second counts are compared at microsecond resolution: s means timedelta(seconds=s) as CPython computes it (modelled), so a sub-microsecond fraction is not distinguished',
+               'the overridden clock of the comparison theorems is naive UTC; an override in a zoneinfo zone with a varying offset is not modelled (cases are implementation-only)',
+               'a list override is popped per call and is NOT moved by advance_time_* (theorems C12_utcnow_pops_in_order, C12_advance_list_noop state what the code does)',
+               'parse_strtime / PERFECT_TIME_FORMAT (strptime) is library behaviour and not part of the property text: not modelled']
+RULE = ('cases = world (override slot, fake OS clock) + command list; kinds: td (timedelta(seconds=x): floats n/1e6 whose binary64 product with 1e6 is not n, ties, dyadic, subnormal, inf/nan/range edges), dst (windows spanning a UTC-offset change of t\'s zone, t at the boundary), norm (naive/aware x fixed offsets -23:59..+23:59, sub-minute offsets, %d zoneinfo zones incl. fold), '
         'iso (isoformat -> parse_isotime), marsh (marshall_now + round trip; naive/UTC variants/other zones), leap (second 58..99), unm (arbitrary dicts, tznames), '
-        'clock / fixture (scalar override, utcnow, utcnow_ts, 1-6 advances by delta or seconds, through the functions and through TimeFixture), cmp (is_older/newer/soon with t placed at '
-        'the boundary now -/+ s and +-1 us, +-2 us, +-1 s, rendered naive / aware / ISO text), seq (random command sequences incl. list overrides, aware overrides, clear), parse (malformed and mutated ISO text), '
+        'clock / fixture (scalar override, utcnow, utcnow_ts, advances by delta or int/float seconds, module functions and TimeFixture methods interleaved, re-set mid-way), cmp (is_older/newer/soon with t placed at '
+        'the boundary now -/+ s and +-1 us, +-2 us, +-1 s, rendered naive / aware / ISO text), seq (random command sequences incl. list overrides, aware overrides, clear), parse (every form iso8601 accepts: date only, basic, mixed, 1-digit fields, Z/+hh/+hhmm/+hh:mm, fractions of 1..46 digits incl. Decimal-rounding carries, comma, trailing newline; malformed and mutated text; each through the combined and the regex-only model), '
         'fold (both folds of every ambiguous / skipped wall reading of the DST zones in 5 sample years and their neighbours, plus equal instants in other zones, in one sequence with repeats, for normalize_time and the comparisons with a margin between the two folds), cal (field split / constructor validation), dsec; walls drawn from datetime.min/max neighbourhoods, leap days, epoch, month/year ends, uniform; seconds from ints, exact-boundary, negative, '
         'fractional, sub-microsecond; fixed boundary cases first; distinct = distinct case JSON; trivial = none') % len(ZONES)
